@@ -734,6 +734,25 @@ class Run:
                 self.queued_ops = [cr, link] + ([{'k': rng.choice(['commit', 'end_ok', 'flush']), 'noreads': True}] if rng.random() < 0.7 else [])
                 self.count('gen:modified-object-refers-to-new-object')
                 return first
+        # toggle burst: three or four calls on ONE collection over a pool of two items with nothing flushed in between (an item that is added,
+        # dropped by an assignment and added again has to be inserted; one that is removed, re-added and removed again has to go), then a boundary
+        if 0.13 <= r < 0.17 and live:
+            cands = [(oid, key) for oid in live for key in w.ent_rel[sh.objs[oid]['ent']] if w.sides[key]['coll']]
+            if cands:
+                oid, key = rng.choice(cands)
+                tgt = [x for x in self.usable(w.sides[w.rev(key)]['ent']) if not (w.schema['rels'][key[0]]['sym'] and x == oid)]
+                if tgt:
+                    pool = sorted(set(rng.choice(tgt) for _ in range(2)))
+                    burst = []
+                    for _ in range(rng.choice([3, 3, 4])):
+                        kk = rng.choice(['add', 'add', 'remove', 'set', 'set', 'clear'])
+                        items = [] if kk == 'clear' else sorted(set(rng.choice(pool) for _ in range(rng.choice([1, 1, 2]))))
+                        if kk == 'set' and rng.random() < 0.4: items = sorted(set(sh.partners(oid, key)) - set(pool)) if rng.random() < 0.5 else []
+                        burst.append({'k': 'coll_' + kk, 'o': oid, 'key': list(key), 'items': items, 'via': rng.choice(['list', 'single', 'op']), 'noreads': True})
+                    if rng.random() < 0.8: burst.append({'k': rng.choice(['commit', 'end_ok', 'flush']), 'noreads': True})
+                    self.queued_ops = burst[1:]
+                    self.count('gen:toggle-burst')
+                    return dict(burst[0], rs=rs)
         # follow-up: another call on the collection touched last, re-using the items of that call (interplay of pending additions / removals)
         lc = getattr(self, 'last_coll_gen', None)
         if lc is not None and rng.random() < 0.3 and lc[0] in live:
